@@ -253,7 +253,17 @@ def _hand_down(ctx):
     except AnalysisError:
         kwx_ = {k.arg: k.value for k in calls[0].keywords if k.arg}
     sv = kwx_.get('source')
-    if sv is None:
+    flt = kwx_.get('__filter__')
+    if flt is not None:
+        g = flt.generators[0]
+        vname = g.target.elts[1].id if isinstance(g.target, ast.Tuple) and len(g.target.elts) == 2 and isinstance(g.target.elts[1], ast.Name) else None
+        by_truth = any(isinstance(t, ast.Name) and t.id == vname for t in g.ifs)
+        ctx.tri(False, by_truth, 'DEFUSE', 'PLSSDesc.parse hands down the source tag',
+                detail_bad=f"`{norm(flt)[:70]}` drops every falsy value from what is handed to the parser: a falsy but legitimate source "
+                           f"tag (0, '', an empty tuple) never reaches the tracts, which then carry source=None while the "
+                           f"description keeps the real tag", key="DEFUSE|PLSSDesc.parse|source-truthy",
+                where=common.loc(pp, flt), why='the keyword dict is filtered before the call')
+    elif sv is None:
         ctx.undecided('DEFUSE', 'PLSSDesc.parse hands down the source tag', 'no source= keyword reaches PLSSParser')
     else:
         lits = [(txt, pol) for _e, txt, pol in literals(guards(sv))]
